@@ -714,6 +714,16 @@ fn item_j(it: &syn::Item, cx: &mut Ctx) -> J {
                         v.push(("end", J::Num(f.block.span().end().line.to_string())));
                         items.push(obj("fn", line(f), v));
                     }
+                    syn::ImplItem::Const(c) => items.push(obj(
+                        "const",
+                        line(c),
+                        vec![
+                            ("name", s(c.ident.to_string())),
+                            ("vis", vis_j(&c.vis)),
+                            ("ty", s(toks(&c.ty))),
+                            ("e", expr_j(&c.expr, cx)),
+                        ],
+                    )),
                     other => items.push(obj("opaque", line(other), vec![("src", s(toks(other)))])),
                 }
             }
